@@ -157,7 +157,7 @@ def _node(m, v):
         return x.node
     if isinstance(x, Agg) and x.variant is not None and x.fields and isinstance(x.fields[0], (Ast, Agg)):
         return _node(m, x.fields[0])
-    if isinstance(x, Linked):
+    if isinstance(x, (Linked, LazyEnum)):
         return x.node
     raise EncoderGap('expected syntax node, got %r' % (x,))
 
@@ -227,11 +227,8 @@ def make_cast(m, node, T):
     if T in KT.cast_variant:
         kind = node.kind
         if is_sym(kind):
-            # fork on the variant
-            table = KT.cast_variant[T]
-            variants = sorted(set(table.values()))
-            conds = [kind_in(kind, {k for k, v in table.items() if v == vn}) for vn in variants]
-            vn = variants[m.ctx.choose(conds)]
+            # the variant is forced only if some code inspects it
+            return LazyEnum(T, node)
         else:
             vn = KT.cast_variant[T][kind]
         inner = _variant_payload(T, vn, node)
@@ -412,3 +409,74 @@ def source_find(m, a, ci):
         return None
     r = walk(Linked(src.root, 0))
     return some(r) if r is not None else NONE
+
+
+# -- typed accessors ------------------------------------------------------------------------------
+
+def _ast_node(m, v):
+    return _node(m, v)
+
+
+def _first_cast(node, T):
+    s = KT.cast_set(T)
+    for c in node.children:
+        if not is_sym(c.kind) and c.kind in s:
+            return c
+        if is_sym(c.kind):
+            raise EncoderGap('typed accessor over a child with symbolic kind')
+    return None
+
+
+def _last_cast(node, T):
+    s = KT.cast_set(T)
+    for c in reversed(node.children):
+        if not is_sym(c.kind) and c.kind in s:
+            return c
+        if is_sym(c.kind):
+            raise EncoderGap('typed accessor over a child with symbolic kind')
+    return None
+
+
+DEFAULT_NODE = {}
+
+
+def _default(T):
+    # AstNode::default(): a placeholder node (never reached on error-free trees)
+    if T not in DEFAULT_NODE:
+        DEFAULT_NODE[T] = Node(KT.k('End'), tag='default-' + T)
+    return DEFAULT_NODE[T]
+
+
+@reg('ImportItemPath::name')
+def importitempath_name(m, a, ci):
+    n = _ast_node(m, a[0])
+    c = _last_cast(n, 'Ident')
+    return Ast('Ident', c if c is not None else _default('Ident'))
+
+
+@reg('RenamedImportItem::new_name')
+def renamed_new_name(m, a, ci):
+    n = _ast_node(m, a[0])
+    c = _last_cast(n, 'Ident')
+    return Ast('Ident', c if c is not None else _default('Ident'))
+
+
+@reg('RenamedImportItem::path')
+def renamed_path(m, a, ci):
+    n = _ast_node(m, a[0])
+    c = _first_cast(n, 'ImportItemPath')
+    return Ast('ImportItemPath', c if c is not None else _default('ImportItemPath'))
+
+
+@reg('Ident::as_str', 'Ident::get', 'MathIdent::as_str', 'MathIdent::get')
+def ident_as_str(m, a, ci):
+    return _ast_node(m, a[0]).text
+
+
+TYPST_NEWLINES = (0x0A, 0x0B, 0x0C, 0x0D, 0x85, 0x2028, 0x2029)
+
+
+@reg('is_newline', 'lexer::is_newline', 'typst_syntax::is_newline')
+def typst_is_newline(m, a, ci):
+    c = m.load(a[0]) if isinstance(a[0], Ref) else a[0]
+    return b_or(*[i_eq(c, k, 32) for k in TYPST_NEWLINES])
